@@ -1,8 +1,92 @@
 /-
-  C18 helpers: unknown keywords in UnmarshalJSON.
+  C18 helpers: unknown keywords in UnmarshalJSON; bridging lemmas between `setMember` (encoding/json's exact-then-
+  case-insensitive field matching, known finding D4) and `setField` (one keyword's field).
 -/
 import JSV.Model.Unmarshal
 namespace JSV
+namespace Go
+
+/-! ## `canonKey` / `setMember`: encoding/json's case-insensitive field matching -/
+
+/-- `foldEq` is equality of the ASCII-lower-cased strings -/
+theorem foldEq_eq_toLower (a b : String) : foldEq a b = (a.toLower == b.toLower) := by
+  unfold foldEq String.toLower
+  rw [← String.toList_map, ← String.toList_map, Bool.eq_iff_iff, beq_iff_eq, beq_iff_eq]
+  exact String.toList_inj
+
+theorem canonKey_of_known {k : String} (h : knownKeys.contains k = true) : canonKey k = k := by
+  unfold canonKey
+  rw [if_pos h]
+
+/-- every keyword is its own field -/
+theorem canonKey_knownKeys : ∀ k ∈ knownKeys, canonKey k = k := by decide
+
+/-- a key that is neither a keyword nor a case variant of one has no field -/
+theorem canonKey_of_unfolded {k : String} (h : knownKeys.contains k = false) (hf : isFoldedKey k = false) :
+    canonKey k = k := by
+  have hany : knownKeys.any (foldEq k) = false := by
+    unfold isFoldedKey at hf
+    rw [h] at hf
+    exact hf
+  have hfind : knownKeys.find? (foldEq k) = none := by
+    rw [List.find?_eq_none]
+    intro x hx hp
+    have : knownKeys.any (foldEq k) = true := List.any_eq_true.2 ⟨x, hx, hp⟩
+    rw [hany] at this
+    cases this
+  unfold canonKey
+  rw [if_neg (by rw [h]; decide), hfind]
+  rfl
+
+theorem contains_false_of_not_mem {k : String} (h : k ∉ knownKeys) : knownKeys.contains k = false := by
+  cases hc : knownKeys.contains k with
+  | false => rfl
+  | true => exact absurd (List.contains_iff_mem.1 hc) h
+
+theorem canonKey_of_not_mem {k : String} (h : k ∉ knownKeys) (hf : isFoldedKey k = false) : canonKey k = k :=
+  canonKey_of_unfolded (contains_false_of_not_mem h) hf
+
+/-- the field a case variant is routed to is a keyword's -/
+theorem canonKey_known_of_ne {k : String} (h : canonKey k ≠ k) : knownKeys.contains (canonKey k) = true := by
+  unfold canonKey at h ⊢
+  split
+  · next hc => rw [if_pos hc] at h; exact absurd rfl h
+  · next hc =>
+    rw [if_neg hc] at h
+    cases hfind : knownKeys.find? (foldEq k) with
+    | none => rw [hfind] at h; exact absurd rfl h
+    | some c => exact List.contains_iff_mem.2 (List.mem_of_find?_eq_some hfind)
+
+/-- a key with `canonKey k ≠ k` is a case variant of a keyword (the class of D4) -/
+theorem isFoldedKey_of_canonKey_ne {k : String} (h : canonKey k ≠ k) : isFoldedKey k = true := by
+  cases hc : knownKeys.contains k with
+  | true => exact absurd (canonKey_of_known hc) h
+  | false =>
+    cases hf : isFoldedKey k with
+    | true => rfl
+    | false => exact absurd (canonKey_of_unfolded hc hf) h
+
+theorem setMember_eq_setField (rec : URec) (n : Node) (st : Store) {k : String} (v : Json) (h : canonKey k = k) :
+    setMember rec n st k v = setField rec n st k v := by
+  unfold setMember
+  rw [if_pos (beq_iff_eq.2 h)]
+
+theorem setMember_of_folded (rec : URec) (n : Node) (st : Store) {k : String} (v : Json) (h : canonKey k ≠ k) :
+    setMember rec n st k v = (setField rec n st (canonKey k) v).bind fun p =>
+      .ok ({ p.1 with extra := some ((p.1.extra.getD []) ++ [(k, v)]) }, p.2) := by
+  unfold setMember
+  rw [if_neg (fun hb => h (beq_iff_eq.1 hb))]
+
+theorem setFields_cons (rec : URec) (k : String) (v : Json) (rest : List (String × Json)) (n : Node) (st : Store) :
+    setFields rec ((k, v) :: rest) n st = Res.bind (setMember rec n st k v) fun p => setFields rec rest p.1 p.2 := rfl
+
+/-- a member whose key is its own field: `setFields` runs `setField` on it -/
+theorem setFields_cons_canon (rec : URec) {k : String} (v : Json) (rest : List (String × Json)) (n : Node) (st : Store)
+    (h : canonKey k = k) :
+    setFields rec ((k, v) :: rest) n st = Res.bind (setField rec n st k v) fun p => setFields rec rest p.1 p.2 := by
+  rw [setFields_cons, setMember_eq_setField rec n st v h]
+
+end Go
 namespace Inv
 open Go
 
@@ -15,12 +99,18 @@ theorem setField_unknown (rec : URec) (n : Node) (st : Store) (k : String) (v : 
     | rfl
     | exact absurd hk (by decide)
 
+/-- … provided it is not a case variant of a keyword either (H_D4): then `setMember` is `setField` -/
+theorem setMember_unknown (rec : URec) (n : Node) (st : Store) (k : String) (v : Json)
+    (hk : Go.knownKeys.contains k = false) (hf : Go.isFoldedKey k = false) :
+    setMember rec n st k v = .ok ({ n with extra := some ((n.extra.getD []) ++ [(k, v)]) }, st) := by
+  rw [setMember_eq_setField rec n st v (canonKey_of_unfolded hk hf), setField_unknown rec n st k v hk]
+
 theorem setFields_append (rec : URec) : ∀ (l1 l2 : List (String × Json)) (n : Node) (st : Store),
     setFields rec (l1 ++ l2) n st = Res.bind (setFields rec l1 n st) fun p => setFields rec l2 p.1 p.2
   | [], l2, n, st => rfl
   | (k, v) :: rest, l2, n, st => by
     simp only [List.cons_append, setFields]
-    cases setField rec n st k v with
+    cases setMember rec n st k v with
     | ok p => simp only [Res.bind_ok]; exact setFields_append rec rest l2 p.1 p.2
     | _ => rfl
 
@@ -100,29 +190,43 @@ theorem setFields_withExtra (rec : URec) : ∀ (l : List (String × Json)) (e : 
   | [], e, m, st => ⟨⟨e, rfl⟩, rfl⟩
   | (k, v) :: rest, e, m, st => by
     simp only [setFields]
-    cases hk : knownKeys.contains k with
-    | true =>
-      rw [setField_withExtra_known rec e m st k v hk]
-      cases setField rec m st k v with
-      | ok p => exact setFields_withExtra rec rest e p.1 p.2
+    by_cases hc : canonKey k = k
+    · rw [setMember_eq_setField rec _ st v hc, setMember_eq_setField rec _ st v hc]
+      cases hk : knownKeys.contains k with
+      | true =>
+        rw [setField_withExtra_known rec e m st k v hk]
+        cases setField rec m st k v with
+        | ok p => exact setFields_withExtra rec rest e p.1 p.2
+        | fuel => trivial
+        | panic => trivial
+        | err => trivial
+      | false =>
+        rw [setField_unknown rec (withExtra e m) st k v hk, setField_unknown rec m st k v hk]
+        simp only [Res.bind_ok]
+        exact setFields_withExtra rec rest (some (((withExtra e m).extra.getD []) ++ [(k, v)]))
+          { m with extra := some ((m.extra.getD []) ++ [(k, v)]) } st
+    · -- a case variant of a keyword: the keyword's field is set (it never looks at `Extra`), then `Extra` grows
+      rw [setMember_of_folded rec _ st v hc, setMember_of_folded rec _ st v hc,
+        setField_withExtra_known rec e m st (canonKey k) v (canonKey_known_of_ne hc)]
+      cases setField rec m st (canonKey k) v with
+      | ok p =>
+        simp only [mapRes, Res.bind_ok]
+        exact setFields_withExtra rec rest (some (((withExtra e p.1).extra.getD []) ++ [(k, v)]))
+          { p.1 with extra := some ((p.1.extra.getD []) ++ [(k, v)]) } p.2
       | fuel => trivial
       | panic => trivial
       | err => trivial
-    | false =>
-      rw [setField_unknown rec (withExtra e m) st k v hk, setField_unknown rec m st k v hk]
-      simp only [Res.bind_ok]
-      exact setFields_withExtra rec rest (some (((withExtra e m).extra.getD []) ++ [(k, v)]))
-        { m with extra := some ((m.extra.getD []) ++ [(k, v)]) } st
 
-/-- an unknown member at ANY position: the document without it and the document with it fail the same way, or both
-    succeed with the same store and schema objects that differ at most in `Extra` -/
+/-- an unknown member (no keyword, and — H_D4 — no case variant of one) at ANY position: the document without it and the
+    document with it fail the same way, or both succeed with the same store and schema objects that differ at most in
+    `Extra` -/
 theorem setFields_unknown_anywhere (rec : URec) (l1 l2 : List (String × Json)) (k : String) (v : Json) (n : Node)
-    (st : Store) (hk : knownKeys.contains k = false) :
+    (st : Store) (hk : knownKeys.contains k = false) (hf : isFoldedKey k = false) :
     SameUpToExtra (setFields rec (l1 ++ (k, v) :: l2) n st) (setFields rec (l1 ++ l2) n st) := by
   rw [setFields_append, setFields_append]
   cases setFields rec l1 n st with
   | ok p =>
-    simp only [Res.bind_ok, setFields, setField_unknown rec p.1 p.2 k v hk]
+    simp only [Res.bind_ok, setFields, setMember_unknown rec p.1 p.2 k v hk hf]
     exact setFields_withExtra rec l2 _ p.1 p.2
   | fuel => trivial
   | panic => trivial
